@@ -216,3 +216,314 @@ Proof.
     rewrite <- I' in Ht. specialize (IH (bapply b o) W' Ht). cbv zeta in IH.
     destruct IH as [A [B C]]. cbv zeta. rewrite <- I', <- D'. split; [exact A|split; [exact B|exact C]].
 Qed.
+
+Lemma avail_idx : forall b, avail (idx b) = bavail b.
+Proof. reflexivity. Qed.
+Lemma space_idx : forall b, space (idx b) = bspace b.
+Proof. reflexivity. Qed.
+
+(* a ++ b ++ c = inp: a and b are slices of inp *)
+Lemma app3_slices : forall A (a b c inp : list A), a ++ b ++ c = inp ->
+  a = zfirstn (zlength a) inp /\ b = zslice inp (zlength a) (zlength a + zlength b).
+Proof.
+  intros A a b c inp H. subst inp. unfold zfirstn, zslice, zskipn, zfirstn, zlength. split.
+  - rewrite Nat2Z.id. rewrite firstn_app, Nat.sub_diag, firstn_all. cbn [firstn]. rewrite app_nil_r. reflexivity.
+  - rewrite Nat2Z.id. rewrite skipn_app, Nat.sub_diag, skipn_all. cbn [skipn app].
+    replace (Z.to_nat (Z.of_nat (length a) + Z.of_nat (length b) - Z.of_nat (length a))) with (length b) by lia.
+    rewrite firstn_app, Nat.sub_diag, firstn_all. cbn [firstn]. rewrite app_nil_r. reflexivity.
+Qed.
+
+(* ------------------------------------------------------------------ the parse loop on real bytes *)
+Section BSim.
+  Variable L : Type.
+  Variable llen : L -> Z.
+  Variable PS : Type.
+  Variable init_ps : PS.
+  Variable recog : PS -> L -> PS + Z.
+  Variable bump : PS -> PS.
+  Variable lineno : PS -> Z.
+  Hypothesis llen_pos : forall l, 1 <= llen l.
+  Variable tail : Z.
+  Hypothesis tail_nonneg : 0 <= tail.
+  Variable ilen : Z.
+  Variable lines : list L.
+  Variable inp : list Z.                         (* the bytes of the input *)
+
+  Local Notation St := (st L PS).
+  Local Notation Bst := (bst L PS).
+  Local Notation WFm := (WFm L llen PS init_ps recog bump lineno tail ilen lines).
+  Local Notation WF := (WF L llen PS init_ps recog bump lineno tail ilen lines).
+  Local Notation step := (step L llen PS recog bump lineno).
+  Local Notation step_rest := (step_rest L llen PS recog lineno).
+  Local Notation step_after_read := (step_after_read L llen PS recog lineno).
+  Local Notation recovery := (recovery L llen PS bump).
+  Local Notation parse_phase := (parse_phase L llen PS recog lineno).
+  Local Notation bstep := (bstep L llen PS recog bump lineno).
+  Local Notation b_step_rest := (b_step_rest L llen PS recog lineno).
+  Local Notation b_step_after_read := (b_step_after_read L llen PS recog lineno).
+  Local Notation b_recovery := (b_recovery L llen PS bump).
+  Local Notation b_parse_phase := (b_parse_phase L llen PS recog lineno).
+  Local Notation iter_nat := (iter_nat L llen PS recog bump lineno).
+  Local Notation biter := (biter L llen PS recog bump lineno).
+
+  (* the representation invariant *)
+  Record BInv (x : Bst) : Prop := {
+    bi_idx : idx (x_b x) = buf (x_s x);                         (* Model.v's indices are the real ones *)
+    bi_wf : bwf (x_b x);
+    bi_all : x_cb x ++ bdata (x_b x) ++ x_in x = inp;           (* nothing lost, nothing reordered *)
+    bi_in : zlength (x_in x) = unread (x_s x);
+    bi_cb : zlength (x_cb x) = cbsum (x_s x)
+  }.
+
+  Lemma binv_geom : forall x, BInv x -> geom (buf (x_s x)).
+  Proof. intros x I. rewrite <- (bi_idx x I). apply bwf_geom. apply (bi_wf x I). Qed.
+
+  Lemma consume_inv : forall x a s', BInv x -> 0 <= a <= avail (buf (x_s x)) ->
+    buf s' = consume (buf (x_s x)) a -> unread s' = unread (x_s x) -> cbsum s' = cbsum (x_s x) + a ->
+    BInv (mkb s' (bconsume (x_b x) a) (x_in x) (x_cb x ++ zfirstn a (bdata (x_b x)))).
+  Proof.
+    intros x a s' I Ha Hb Hu Hc. destruct I as [I1 I2 I3 I4 I5].
+    rewrite <- I1, avail_idx in Ha.
+    destruct (bconsume_spec (x_b x) a I2 (proj1 Ha)) as [W D].
+    pose proof (bdata_length _ I2) as HL.
+    constructor; cbn [x_s x_b x_in x_cb].
+    - rewrite idx_consume, I1. symmetry. exact Hb.
+    - exact W.
+    - rewrite D. replace (Z.min a (bavail (x_b x))) with a by lia.
+      rewrite <- app_assoc. rewrite (app_assoc (zfirstn a _)). rewrite zfirstn_zskipn. exact I3.
+    - rewrite Hu. exact I4.
+    - rewrite zlength_app, zlength_zfirstn, I5, Hc; lia.
+  Qed.
+
+  Lemma write_inv : forall x n s', BInv x -> 0 <= n <= space (buf (x_s x)) -> n <= unread (x_s x) ->
+    buf s' = fill (buf (x_s x)) n -> unread s' = unread (x_s x) - n -> cbsum s' = cbsum (x_s x) ->
+    BInv (mkb s' (bfill (bwrite (x_b x) (zfirstn n (x_in x))) n) (zskipn n (x_in x)) (x_cb x)).
+  Proof.
+    intros x n s' I Hn Hun Hb Hu Hc. destruct I as [I1 I2 I3 I4 I5].
+    rewrite <- I1, space_idx in Hn.
+    assert (HL : zlength (zfirstn n (x_in x)) = n) by (apply zlength_zfirstn; lia).
+    pose proof (bwrite_fill_spec (x_b x) (zfirstn n (x_in x)) I2) as S. rewrite HL in S.
+    destruct (S (proj2 Hn)) as [W D].
+    constructor; cbn [x_s x_b x_in x_cb].
+    - rewrite idx_fill, idx_write, I1. symmetry. exact Hb.
+    - exact W.
+    - rewrite D. rewrite <- app_assoc. rewrite zfirstn_zskipn. exact I3.
+    - rewrite zlength_zskipn, Hu; lia.
+    - rewrite Hc. exact I5.
+  Qed.
+
+  Lemma grow_inv : forall x n s', BInv x ->
+    buf s' = grow (buf (x_s x)) n -> unread s' = unread (x_s x) -> cbsum s' = cbsum (x_s x) ->
+    BInv (mkb s' (bgrow (x_b x) n) (x_in x) (x_cb x)).
+  Proof.
+    intros x n s' I Hb Hu Hc. destruct I as [I1 I2 I3 I4 I5].
+    destruct (bgrow_spec (x_b x) n I2) as [W D].
+    constructor; cbn [x_s x_b x_in x_cb].
+    - rewrite idx_grow, I1. symmetry. exact Hb.
+    - exact W.
+    - rewrite D. exact I3.
+    - rewrite Hu. exact I4.
+    - rewrite Hc. exact I5.
+  Qed.
+
+  Lemma with_s_inv : forall x s', BInv x ->
+    buf s' = buf (x_s x) -> unread s' = unread (x_s x) -> cbsum s' = cbsum (x_s x) ->
+    BInv (with_s L PS x s').
+  Proof.
+    intros x s' I Hb Hu Hc. destruct I as [I1 I2 I3 I4 I5].
+    constructor; cbn [with_s x_s x_b x_in x_cb]; try assumption; congruence.
+  Qed.
+
+  (* lock step: the byte-level loop and the index model take the same branch *)
+  Definition sim (br : bres L PS) (r : stepres L PS) : Prop :=
+    match br, r with
+    | BNext x', Next s' => x_s x' = s' /\ BInv x'
+    | BDone r1 x', Done r2 s' => r1 = r2 /\ x_s x' = s' /\ BInv x'
+    | BPanic _, StPanic _ => True
+    | _, _ => False
+    end.
+
+  Lemma b_recovery_inv : forall x, WFm (x_s x) -> BInv x ->
+    x_s (b_recovery x) = recovery (x_s x) /\ BInv (b_recovery x).
+  Proof.
+    intros x W I. split; [reflexivity|].
+    pose proof (binv_geom x I) as G.
+    unfold Circular.b_recovery. destruct (Model.first_nl L llen PS (x_s x)) as [i|] eqn:F.
+    - pose proof F as F'. apply (first_nl_some L llen PS init_ps recog bump lineno llen_pos) in F'. destruct F' as [l [t [Hr [Hi Hle]]]].
+      rewrite Hr. cbv iota. destruct (wf_off _ _ _ _ _ _ _ _ _ _ _ W) as [Wo1 Wo2]. rewrite Hr in Wo2.
+      apply consume_inv; try exact I; try lia.
+      all: unfold Model.recovery; rewrite F, Hr; reflexivity.
+    - assert (E : recovery (x_s x) = discard_all L PS (x_s x)).
+      { unfold Model.recovery. rewrite F. reflexivity. }
+      cbv iota. change (bavail (x_b x)) with (avail (idx (x_b x))). rewrite (bi_idx x I).
+      rewrite E. destruct G as [G1 [G2 G3]].
+      apply consume_inv; try exact I; try reflexivity. unfold avail. lia.
+  Qed.
+
+  Lemma b_parse_phase_sim : forall x, BInv x -> sim (b_parse_phase x) (parse_phase (x_s x)).
+  Proof.
+    intros x I. unfold Circular.b_parse_phase, Model.parse_phase.
+    destruct (pr (x_s x)) eqn:Ep; [cbn [sim]; split; [reflexivity|exact I]|].
+    rewrite (bwf_geom_ok _ (bi_wf x I)). rewrite (geom_ok_true _ (binv_geom x I)). cbn [negb].
+    destruct (off (x_s x) =? 0); cbn [negb]; [|exact Logic.I].
+    rewrite <- avail_idx, (bi_idx x I).
+    pose proof (binv_geom x I) as G.
+    assert (Hav : 0 <= avail (buf (x_s x))) by (destruct G as [? [? ?]]; unfold avail; lia).
+    destruct (pm L llen PS recog lineno (avail (buf (x_s x))) (ps (x_s x)) (rest (x_s x)) 0 (log (x_s x)))
+      as [[[[p' r'] c'] lg']|[c ln]] eqn:P.
+    - apply (pm_inl L llen PS recog bump lineno llen_pos) in P; [|exact Hav].
+      destruct P as [tk [H1 [H2 [H3 _]]]].
+      pose proof (size_nonneg L llen PS init_ps recog bump lineno llen_pos tk) as Hsz.
+      replace (avail (buf (x_s x)) <? c') with false by (symmetry; apply Z.ltb_ge; lia).
+      cbn [sim]. split; [reflexivity|].
+      apply consume_inv; try exact I; try reflexivity. lia.
+    - cbn [sim]. split; [reflexivity|split; [reflexivity|exact I]].
+  Qed.
+
+  Lemma b_step_after_read_sim : forall x1 n sch' sp, BInv x1 ->
+    sp = space (buf (x_s x1)) -> 0 <= n <= sp -> n <= unread (x_s x1) ->
+    sim (b_step_after_read n sch' sp x1) (step_after_read n sch' sp (x_s x1)).
+  Proof.
+    intros x1 n sch' sp I Hsp Hn Hu. subst sp.
+    unfold Circular.b_step_after_read, Model.step_after_read. cbv zeta.
+    match goal with |- context [mkb ?s2 (bfill ?w n) ?i ?c] =>
+      assert (I2 : BInv (mkb s2 (bfill w n) i c)) by (apply write_inv; try exact I; try reflexivity; lia);
+      set (S2 := s2) in *; set (X2 := mkb S2 (bfill w n) i c) in *
+    end.
+    destruct (n =? 0).
+    - destruct (jf S2 && negb (avail (fill (buf (x_s x1)) n) =? 0)).
+      + exact (b_parse_phase_sim X2 I2).
+      + destruct (fc S2); [cbn [sim]; split; [reflexivity|split; [reflexivity|exact I2]]|].
+        destruct ((space (buf (x_s x1)) =? 0) && negb (tg S2)).
+        * destruct (MAX_CAP <? Z.min (b_cap (fill (buf (x_s x1)) n) * 2) U64MAX).
+          { cbn [sim]. split; [reflexivity|]. apply with_s_inv; try exact I2; reflexivity. }
+          { cbn [sim]. split; [reflexivity|]. apply (grow_inv X2); try exact I2; reflexivity. }
+        * destruct (total S2 =? 0); cbn [sim]; (split; [reflexivity|split; [reflexivity|exact I2]]).
+    - apply (b_parse_phase_sim (with_s L PS X2 (set_tg L PS S2 false))).
+      apply with_s_inv; try exact I2; reflexivity.
+  Qed.
+
+  Lemma b_step_rest_sim : forall x1, BInv x1 -> sim (b_step_rest x1) (step_rest (x_s x1)).
+  Proof.
+    intros x1 I. unfold Circular.b_step_rest, Model.step_rest.
+    rewrite (bwf_geom_ok _ (bi_wf x1 I)). rewrite (geom_ok_true _ (binv_geom x1 I)). cbn [negb].
+    rewrite <- space_idx, (bi_idx x1 I).
+    destruct (read_n L PS (space (buf (x_s x1))) (x_s x1)) as [n sch'] eqn:R.
+    pose proof (binv_geom x1 I) as G.
+    assert (Hs : 0 <= space (buf (x_s x1))) by (destruct G as [? [? ?]]; unfold space; lia).
+    assert (Hu : 0 <= unread (x_s x1)) by (rewrite <- (bi_in x1 I); apply zlength_nonneg).
+    destruct (read_n_spec L PS init_ps recog bump lineno _ _ _ _ R Hs Hu) as [A [B _]].
+    apply b_step_after_read_sim; try assumption. reflexivity.
+  Qed.
+
+  Lemma bstep_sim : forall x0, WFm (x_s x0) -> BInv x0 -> sim (bstep x0) (step (x_s x0)).
+  Proof.
+    intros x0 W I. unfold Circular.bstep, Model.step.
+    rewrite (bwf_geom_ok _ (bi_wf x0 I)). rewrite (geom_ok_true _ (binv_geom x0 I)). cbn [negb].
+    rewrite andb_false_r.
+    destruct (pr (x_s x0)) eqn:Ep.
+    - destruct (b_recovery_inv x0 W I) as [E I1]. rewrite <- E. apply b_step_rest_sim. exact I1.
+    - apply b_step_rest_sim. exact I.
+  Qed.
+
+  (* any number of iterations *)
+  Lemma biter_sim : forall n x0, WF (x_s x0) -> BInv x0 -> sim (biter n x0) (iter_nat n (x_s x0)).
+  Proof.
+    induction n as [|n IH]; intros x0 W I; cbn [Circular.biter Proofs.iter_nat].
+    - cbn [sim]. split; [reflexivity|exact I].
+    - pose proof (bstep_sim x0 (wf_m _ _ _ _ _ _ _ _ _ _ _ W) I) as S.
+      pose proof (step_wf L llen PS init_ps recog bump lineno llen_pos tail tail_nonneg ilen lines (x_s x0) W) as SW.
+      destruct (bstep x0) as [x1|r1 x1|t1]; destruct (step (x_s x0)) as [s1|r2 s1|t2]; cbn [sim] in S; try contradiction.
+      + destruct S as [E I1]. subst s1. destruct SW as [W1 _]. apply IH; assumption.
+      + cbn [sim]. exact S.
+  Qed.
+End BSim.
+
+(* ------------------------------------------------------------------ from the initial state *)
+Section BTop.
+  Variable L : Type.
+  Variable llen : L -> Z.
+  Variable PS : Type.
+  Variable init_ps : PS.
+  Variable recog : PS -> L -> PS + Z.
+  Variable bump : PS -> PS.
+  Variable lineno : PS -> Z.
+  Hypothesis llen_pos : forall l, 1 <= llen l.
+
+  Local Notation init_st := (init_st L llen PS init_ps).
+  Local Notation iter_pos := (iter_pos L llen PS recog bump lineno).
+  Local Notation iter_nat := (iter_nat L llen PS recog bump lineno).
+  Local Notation biter := (biter L llen PS recog bump lineno).
+  Local Notation input_len := (input_len L llen).
+  Local Notation WF' lines t0 := (WF L llen PS init_ps recog bump lineno (Z.max 0 t0) (input_len lines t0) lines).
+  Local Notation WFm' lines t0 := (WFm L llen PS init_ps recog bump lineno (Z.max 0 t0) (input_len lines t0) lines).
+
+  (* what the buffer, the callback and the reader hold, in terms of the input *)
+  Definition window (inp : list Z) (x : bst L PS) : Prop :=
+    let s := x_s x in
+    idx (x_b x) = buf s /\
+    x_cb x ++ bdata (x_b x) ++ x_in x = inp /\
+    x_cb x = zfirstn (total s) inp /\
+    bdata (x_b x) = zslice inp (total s) (total s + avail (buf s)).
+
+  Lemma binv_window : forall lines t0 inp x, BInv L PS inp x -> WFm' lines t0 (x_s x) -> window inp x.
+  Proof.
+    intros lines t0 inp x I W. destruct I as [I1 I2 I3 I4 I5].
+    pose proof (wf_cb _ _ _ _ _ _ _ _ _ _ _ W) as Hcb.
+    pose proof (bdata_length _ I2) as HL. rewrite <- avail_idx, I1 in HL.
+    destruct (app3_slices _ _ _ _ _ I3) as [A B]. rewrite I5, Hcb in A. rewrite I5, Hcb, HL in B.
+    unfold window. cbv zeta. repeat split; assumption.
+  Qed.
+
+  Lemma iter_nat_wfm : forall lines t0 n s0, WF' lines t0 s0 ->
+    match iter_nat n s0 with
+    | Next s => WF' lines t0 s
+    | Done _ s => WFm' lines t0 s
+    | StPanic _ => False
+    end.
+  Proof.
+    intros lines t0. induction n as [|n IH]; intros s0 W; cbn [Proofs.iter_nat]; [exact W|].
+    pose proof (step_wf L llen PS init_ps recog bump lineno llen_pos (Z.max 0 t0) ltac:(lia)
+                        (input_len lines t0) lines s0 W) as SW.
+    destruct (step L llen PS recog bump lineno s0) as [s1|r s1|t].
+    - apply IH. apply SW.
+    - apply SW.
+    - exact SW.
+  Qed.
+
+  Lemma binit_inv : forall lines t0 sch inp, zlength inp = input_len lines t0 ->
+    BInv L PS inp (binit L PS (init_st lines t0 sch) inp).
+  Proof.
+    intros lines t0 sch inp H. unfold binit, Model.init_st.
+    constructor; cbn [x_s x_b x_in x_cb buf unread cbsum b_cap].
+    - reflexivity.
+    - apply bwf_with_capacity. unfold INITIAL_CAP. lia.
+    - reflexivity.
+    - exact H.
+    - reflexivity.
+  Qed.
+
+  Lemma window_thm : forall lines t0 sch inp p, zlength inp = input_len lines t0 ->
+    let x0 := binit L PS (init_st lines t0 sch) inp in
+    match iter_pos p (init_st lines t0 sch) with
+    | Next s => exists x, biter (Pos.to_nat p) x0 = BNext x /\ x_s x = s /\ window inp x
+    | Done r s => exists x, biter (Pos.to_nat p) x0 = BDone r x /\ x_s x = s /\ window inp x
+    | StPanic _ => False
+    end.
+  Proof.
+    intros lines t0 sch inp p H x0.
+    rewrite iter_pos_nat.
+    pose proof (init_wf' L llen PS init_ps recog bump lineno llen_pos lines t0 sch) as W0.
+    pose proof (binit_inv lines t0 sch inp H) as I0.
+    pose proof (biter_sim L llen PS init_ps recog bump lineno llen_pos (Z.max 0 t0) ltac:(lia)
+                          (input_len lines t0) lines inp (Pos.to_nat p) x0 W0 I0) as S.
+    pose proof (iter_nat_wfm lines t0 (Pos.to_nat p) _ W0) as W.
+    change (x_s x0) with (init_st lines t0 sch) in S.
+    destruct (iter_nat (Pos.to_nat p) (init_st lines t0 sch)) as [s|r s|t];
+      destruct (biter (Pos.to_nat p) x0) as [x|r1 x|t1]; cbn [sim] in S; try contradiction.
+    - destruct S as [E I]. exists x. split; [reflexivity|]. split; [exact E|]. subst s.
+      apply (binv_window lines t0); [exact I|apply W].
+    - destruct S as [Er [E I]]. subst r1. exists x. split; [reflexivity|]. split; [exact E|]. subst s.
+      apply (binv_window lines t0); [exact I|exact W].
+  Qed.
+End BTop.
